@@ -24,7 +24,21 @@ IntSeq = z3.SeqSort(z3.IntSort())
 _tuple_sorts: dict = {}
 
 
+# Extension point (pyvc/ext_*.py): element kinds defined outside the core.  kind = (tag, ...) with tag a key of
+# EXT_KINDS; the handler provides sort(kind), kname(kind), getattr(ex, sym, name), truth(ex, sym),
+# compare(ex, op, a, b), eval_term(model, term, kind, eval_term).  Values of such kinds are immutable `Sym`s.
+EXT_KINDS = {}
+
+
+def ext_kind(kind):
+    if isinstance(kind, tuple) and kind and kind[0] in EXT_KINDS:
+        return EXT_KINDS[kind[0]]
+    return None
+
+
 def sort_of(kind):
+    if ext_kind(kind) is not None:
+        return ext_kind(kind).sort(kind)
     if kind == 'int':
         return z3.IntSort()
     if kind == 'bool':
@@ -53,6 +67,8 @@ def tuple_parts(kind):
 def _kname(k):
     if isinstance(k, str):
         return k
+    if ext_kind(k) is not None:
+        return ext_kind(k).kname(k)
     if k[0] == 'seq':
         return 'S' + _kname(k[1])
     if k[0] == 'opq':
